@@ -87,11 +87,11 @@ Definition enc_int (neg : bool) (val : N) : list chunk :=
 Definition enc_null : list chunk := [[SIMPLE + 22]].
 Definition enc_undefined : list chunk := [[SIMPLE + 23]].
 
-(* encoder.rs:158 — one byte for 0..=23, an error (None) for 24..=31, f8 x above *)
-Definition enc_simple (x : N) : option (list chunk) :=
-  if x <=? 23 then Some [[SIMPLE + x]]
-  else if x <=? 31 then None
-  else Some [[SIMPLE + 24; x]].
+(* encoder.rs:158 — one byte for 0..=23, the two bytes f8 x for every other value.  That includes
+   24..=31, for which RFC 8949 3.3 forbids this form (open finding F2b; the crate's test rfc_tv_small
+   pins the RFC 7049 vector simple(24) = f8 18). *)
+Definition enc_simple (x : N) : list chunk :=
+  if x <=? 23 then [[SIMPLE + x]] else [[SIMPLE + 24; x]].
 
 (* encoder.rs:190,195 (bits of the float, big endian) *)
 Definition enc_f32 (bits : N) : list chunk := [[SIMPLE + 26]; be 4 bits].
